@@ -16,6 +16,8 @@ Rg    make the scope-end drop of a named lock guard explicit:
         `let [mut] G = RECV.read();` / `.write();` in a block `{ ..; TAIL }`
             ->  `let mut G = RECV.read(); ..; let vx_tail = TAIL; vx_release_read(&mut G); vx_tail`
         (no TAIL: `vx_release_*(&mut G);` is appended; an explicit `drop(G)` in that block is rewritten in place instead)
+        `*G = EXPR;` for a write guard G  ->  `G.vx_store(EXPR);`   (assignment through the guard's DerefMut: Verus has no user
+        Deref, the unit's guard stub offers the store as a method)
       Rust drops the locals of a block after its tail expression has been evaluated; the rule writes that drop down as a call so
       that "while the guard is held" becomes a statement-order fact.  Early exits (`return`, `?`) from the block are NOT given a
       release call (nothing in the unit needs the release on those paths; listed in the notes).
@@ -164,6 +166,19 @@ def rg(text, log):
         if o is None:
             continue
         rel = "vx_release_%s(&mut %s)" % (kind, name)
+        if kind == "write":
+            # `*G = EXPR;` (assignment through the guard's DerefMut; Verus has no user Deref) -> `G.vx_store(EXPR);`
+            for h in find_seq(st, ["*", name, "="]):
+                if not (e < h < c) or st[h + 3].text == "=" or st[h - 1].text not in (";", "{", "}"):
+                    continue
+                z = h + 3
+                while z < c and st[z].text != ";":
+                    if st[z].kind == "punct" and st[z].text in "([{":
+                        z = match_close(st, z)
+                    z += 1
+                edits.append((st[h].start, st[h + 2].end, "%s.vx_store(" % name))
+                edits.append((st[z].start, st[z].start, ")"))
+                log["Rg guard deref-assign -> vx_store"] = log.get("Rg guard deref-assign -> vx_store", 0) + 1
         if not has_mut:
             edits.append((t.end, t.end, " mut"))
         # explicit drop(name) in this block?
